@@ -1,5 +1,5 @@
 import XlModel.Bstr
-import XlModel.Grid
+import XlModel.SaveGrid
 import XlModel.Drv.Util
 /-
 Line protocol of C01 (see harness/cmd/vh/c01.go):
